@@ -582,6 +582,9 @@ class QubitCircuit:
             measurements are added to the circuit"
             )
 
+        # a string names one gate, it is not a set of substrings
+        basis_names = basis if isinstance(basis, list) else [basis]
+
         if isinstance(basis, list):
             basis_1q = []
             basis_2q = []
@@ -622,7 +625,7 @@ class QubitCircuit:
             try:
                 _resolve_to_universal(gate, temp_resolved, basis_1q, basis_2q)
             except KeyError:
-                if gate.name in basis:
+                if gate.name in basis_names:
                     temp_resolved.append(gate)
                 else:
                     exception = f"Gate {gate.name} cannot be resolved."
